@@ -57,6 +57,14 @@ func genC17(r *rt.Rand, tier string, idx int) *world.Scenario {
 		sc.Rates.DelErr = 0.1 + 0.4*r.Float64()
 	}
 	pauses := []int64{10_000, 600_000, 1_790_000, 1_810_000, 3_590_000, 3_610_000, 4_000_000, 100_000}
+	// requests may carry a lease (Kubernetes sends one with Events and with master leases): expiry is decided
+	// by the key, never by the request's lease
+	lease := func() int64 {
+		if r.Chance(0.25) {
+			return int64(1 + r.Intn(5))
+		}
+		return 0
+	}
 	var cl world.Client
 	cl.Ops = append(cl.Ops, world.Op{K: "watch", Key: prefix + "/", W: 1, Consume: "eager"})
 	n := 8 + r.Intn(16)
@@ -65,9 +73,9 @@ func genC17(r *rt.Rand, tier string, idx int) *world.Scenario {
 		v := fmt.Sprintf("v%d", i)
 		switch r.Weighted(22, 16, 6, 22, 14, 20) {
 		case 0:
-			cl.Ops = append(cl.Ops, world.Op{K: "create", Key: k, Val: v})
+			cl.Ops = append(cl.Ops, world.Op{K: "create", Key: k, Val: v, Lease: lease()})
 		case 1:
-			cl.Ops = append(cl.Ops, world.Op{K: "get", Key: k}, world.Op{K: "update", Key: k, Val: v, Rev: world.Rev{M: "known"}})
+			cl.Ops = append(cl.Ops, world.Op{K: "get", Key: k}, world.Op{K: "update", Key: k, Val: v, Rev: world.Rev{M: "known"}, Lease: lease()})
 		case 2:
 			cl.Ops = append(cl.Ops, world.Op{K: "get", Key: k}, world.Op{K: "delete", Key: k, Rev: world.Rev{M: "known"}})
 		case 3:
